@@ -300,6 +300,7 @@ func (f *DefaultFanController) RunInitializationSequence() (err error) {
 		return nil
 	}
 	ui.Info("Measuring RPM curve...")
+	simhook.Yield("ctl.measure", fan.GetId())
 
 	err = trySetManualPwm(fan)
 	if err != nil {
